@@ -48,13 +48,13 @@ impl Entry {
         match self.n {
             1 => vec![arr1(&[1.0])],
             2 => {
-                let xs: &[f64] = tier.pick(&[0.3][..], &[1e-6, 0.02, 0.1, 0.3, 0.5, 0.7, 0.9, 0.98, 1.0 - 1e-6][..]);
+                let xs: &[f64] = tier.pick(&[0.02, 0.3, 0.98][..], &[1e-6, 0.02, 0.1, 0.3, 0.5, 0.7, 0.9, 0.98, 1.0 - 1e-6][..]);
                 xs.iter().map(|&x| arr1(&[x, 1.0 - x])).collect()
             }
             3 => {
                 let v = vec![arr1(&[0.3, 0.5, 0.2]), arr1(&[0.9, 0.05, 0.05]), arr1(&[0.05, 0.05, 0.9]), arr1(&[0.05, 0.9, 0.05]), arr1(&[1.0 / 3.0, 1.0 / 3.0, 1.0 / 3.0]), arr1(&[0.6, 0.399999, 1e-6]), arr1(&[0.2, 0.2, 0.6])];
                 match tier {
-                    Tier::Quick => v[..1].to_vec(),
+                    Tier::Quick => v[..3].to_vec(),
                     Tier::Thorough => v,
                 }
             }
@@ -286,7 +286,12 @@ pub fn zoo(tier: Tier) -> Vec<Entry> {
     z.push(f("saftvrqmiefunc:h2", ResidualModel::SaftVRQMieFunctional(SaftVRQMieFunctional::new(vrq(&["hydrogen"], "aasen2019", None))), 1, 33.0, true));
 
     match tier {
-        Tier::Quick => z.into_iter().filter(|e| e.quick).collect(),
+        // the quick tier runs the whole zoo as well (its state lattice is the small one); the `quick` flag only orders the
+        // entries simplest-first
+        Tier::Quick => {
+            let (a, b): (Vec<Entry>, Vec<Entry>) = z.into_iter().partition(|e| e.quick);
+            a.into_iter().chain(b).collect()
+        }
         Tier::Thorough => z,
     }
 }
